@@ -149,7 +149,8 @@ namespace sim
       }
       W.io_active = false;
       SIM_UNPOISON( g_arena, ARENA );
-      out.h.swap( W.h );
+      out.h.assign( W.h.begin(), W.h.end() );  // W.h keeps its (large) buffer across runs
+      W.h.clear();
       out.excs.swap( W.excs );
       out.aborted = W.aborted;
       out.asan_hits = W.asan_hits;
@@ -157,7 +158,6 @@ namespace sim
       out.max_depth = W.max_open_depth;
       out.hash = history_hash( out.h, out.excs );
       W.fuel_events = 20000;
-      W.h.reserve( 65536 );
       return out;
    }
 
